@@ -27,7 +27,12 @@ def templates(rng):
     W = ['monlock', 'monwait', 'monunlock']
     Wt = lambda: ['monlock', 'monwaitt=%d' % ms(), 'monunlock']
     CS = ['monlock', 'csenter', 'csleave', 'monunlock']
-    T += [(2, 0, 0, 1, [W, ['monset']]),
+    T += [(3, 0, 0, 1, [W, Wt(), ['monset']]),
+          (3, 0, 0, 1, [Wt(), W, ['monset']]),
+          (4, 0, 0, 1, [W, Wt(), Wt(), ['monset', 'monset']]),
+          (4, 0, 0, 1, [W, W, Wt(), ['monset']]),
+          (3, 0, 0, 1, [['sigwait'], ['sigwaitt=%d' % ms()], ['sigset']]),
+          (2, 0, 0, 1, [W, ['monset']]),
           (3, 0, 0, 1, [W, W, ['monset']]),
           (3, 0, 0, 1, [W, W, ['monset', 'monset']]),
           (4, 0, 0, 1, [W, W, ['monset'], ['monset']]),
@@ -125,45 +130,54 @@ class C11(Check):
     technique = ('machine-checked proof (Coq 8.16) about an executable model of the pthread primitives and of libnstd\'s wrappers '
                  '+ deterministic-scheduler correspondence (real library code on virtual primitives, same move list as the model)')
     level_text = ('Theorems in Coq (19, closed under the global context) about every state reachable by ANY list of scheduler moves '
-                  '(run a thread\'s pending primitive call, spurious wake-up, timeout, clock advance, rotation of a condition queue) '
-                  'from any scripts of library calls, any number of threads, any initial signal state and semaphore value: Mutex history '
-                  'exclusive and re-entrant, tryLock never blocked and successful iff free or own; Semaphore count conserved and no '
-                  'waiter disabled while the count is positive; Signal wait true only if set since the last reset, a blocked waiter with '
-                  'the flag up implies an enabled pending unlock/broadcast of set(), the broadcast leaves nobody blocked; Monitor '
-                  'successful waits + flag <= sets, a set() that found a blocked waiter leaves an enabled signaller or a woken waiter '
-                  'that consumes the flag and returns true; timed waits return false only at/after start+timeout (deadline arithmetic '
-                  'exact and normalised); join returns the value the thread function returned. The model is tied to the code by running '
-                  'the real Signal.cpp/Monitor.cpp/Mutex.cpp/Semaphore.cpp/Thread.cpp (ASan/UBSan build of the working tree) on virtual '
-                  'pthread primitives under a deterministic baton-passing scheduler (-Wl,--wrap=...; clock_gettime interposed) with the '
-                  'same move lists as the extracted model, comparing per move: returned values, pending primitive call with the '
-                  'absolute deadline the code computed, blocked/enabled status of every thread, the signaled flags read from the '
-                  'objects\' memory, mutex owners/counts, condition queues, semaphore value, occupancy counter.')
-    level_note = ('PARTIAL in this sense: the OS primitives are MODELLED. coq/Sync/Sched.v (pthread mutex plain/recursive, condition '
-                  'variable with spurious wake-ups and timeouts as scheduler moves, POSIX semaphore with EINTR, create/join, scripted '
-                  'CLOCK_REALTIME) and its hand transcription harness/sync_sched.cpp are trusted; the real glibc primitives and the real '
-                  'kernel scheduler are never exercised by this check (no real-thread soak was built). For Mutex, Semaphore and Thread '
-                  'the library adds no logic beyond the recursive attribute (read from the real pthread_mutex_t by the harness), the '
-                  'EINTR retry loop and the stored handle, so their theorems are theorems about the modelled primitive as used by the '
-                  'wrapper. Granularity: one move = one primitive call plus the thread-local code up to the next call; the only shared '
-                  'plain variables (the two signaled flags) are touched only in the move that acquired the guarding mutex, so finer '
-                  'interleavings add no behaviours under sequential consistency (argued in SyncModel.v, not proved). One object of each '
-                  'class per scenario; the ENOSYS polling fallback of Semaphore::wait(timeout) and the Windows paths are not modelled. '
-                  '"No waiter stays blocked" is proved as absence of stuck states (a named thread has an enabled step that ends the '
-                  'configuration), not as termination under a fairness assumption; for Monitor the woken waiter additionally needs the '
-                  'monitor lock, which a caller may hold forever. Judge: S/M events are flag transitions observed in memory, so the '
-                  'history oracle on the implementation checks waits <= effective (false->true) sets, which is stronger than the theorem '
-                  'monitor_waits_le_sets; validated by correspondence only: handle bookkeeping of Thread::start/join on repeated '
-                  'start/join (modelled, compared, no theorem).')
+                  '(run a thread\'s pending primitive call, spurious wake-up, timeout, timeout-steal = a woken timed waiter past its '
+                  'deadline reports ETIMEDOUT although the signal was directed at it (POSIX-permitted), clock advance, rotation of a '
+                  'condition queue) from any scripts of library calls, any number of threads, any initial signal state and semaphore '
+                  'value. Theorems about libnstd\'s own logic on the modelled primitives: Signal wait true only if set since the last '
+                  'reset, a blocked waiter with the flag up implies an enabled pending unlock/broadcast of set(), the broadcast leaves '
+                  'nobody blocked; Monitor successful waits + flag <= sets, a set() that found a blocked waiter leaves an enabled '
+                  'signaller or a woken waiter that - whatever the return code of its condition wait, 0 or ETIMEDOUT - consumes the flag '
+                  'and returns true; timed waits return false only at/after start+timeout (deadline arithmetic exact and normalised). '
+                  'Theorems that are PROPERTIES OF THE MODELLED PRIMITIVE as the wrapper uses it (Mutex, Semaphore and Thread add no '
+                  'logic beyond the recursive attribute, the EINTR retry loop and the stored handle): Mutex history exclusive and '
+                  're-entrant, tryLock never blocked (trylock_never_blocks restates the rule of Sched.v) and successful iff free or own; '
+                  'Semaphore count conserved and no waiter disabled while the count is positive; join returns the value the thread '
+                  'function returned. The model is tied to the code by running the real Signal.cpp/Monitor.cpp/Mutex.cpp/Semaphore.cpp/'
+                  'Thread.cpp (ASan/UBSan build of the working tree) on virtual pthread primitives under a deterministic baton-passing '
+                  'scheduler (-Wl,--wrap=...; clock_gettime interposed) with the same move lists as the extracted model, comparing per '
+                  'move: returned values, pending primitive call with the absolute deadline the code computed, blocked/enabled status of '
+                  'every thread, the signaled flags read from the objects\' memory, mutex owners/counts, condition queues, semaphore '
+                  'value, occupancy counter.')
+    level_note = ('PARTIAL in this sense: the OS primitives are MODELLED. coq/Sync/Sched.v (pthread mutex plain/recursive - EPERM for a '
+                  'non-owner unlock only on the recursive type, a default-type mutex is freed whoever held it, as glibc does -, condition '
+                  'variable with spurious wake-ups, timeouts and timeout-steals as scheduler moves, POSIX semaphore with EINTR, '
+                  'create/join, scripted clock) and its hand transcription harness/sync_sched.cpp are trusted; the real glibc primitives '
+                  'and the real kernel scheduler are never exercised by this check (no real-thread soak was built). The rows marked [P] '
+                  'in Properties_C11.v (Mutex, Semaphore, tryLock, Thread) are properties of that modelled primitive reached through the '
+                  'wrapper, not of wrapper logic. Granularity: one move = one primitive call plus the thread-local code up to the next '
+                  'call; the only shared plain variables (the two signaled flags) are touched only in the move that acquired the '
+                  'guarding mutex, so finer interleavings add no behaviours under sequential consistency (ARGUED in SyncModel.v, NOT '
+                  'PROVED). A thread id runs at most once per scenario: restarting a Thread object after join() is allowed by the class '
+                  'but impossible in the model and in the virtual pthread_create (EAGAIN). One object of each class per scenario; the '
+                  'ENOSYS polling fallback of Semaphore::wait(timeout) and the Windows paths are not modelled. "No waiter stays blocked" '
+                  'is proved as absence of stuck states (a named thread has an enabled step that ends the configuration), not as '
+                  'termination under a fairness assumption; for Monitor the woken waiter additionally needs the monitor lock, which a '
+                  'caller may hold forever. Signal::wait(timeout) returns false when a timeout-steal hits it even though the signal is '
+                  'set; that contradicts no clause (manual reset + broadcast: nobody else loses the wake-up). Judge: S/M events are flag '
+                  'transitions observed in memory, so the history oracle on the implementation checks waits <= effective (false->true) '
+                  'sets, which is stronger than the theorem monitor_waits_le_sets; validated by correspondence only: handle bookkeeping '
+                  'of Thread::start/join on repeated start/join (modelled, compared, no theorem).')
     rule = ('case = scenario (2-4 threads, one script of library calls per thread, mostly one primitive family) + schedule (list of '
-            'moves run/spur/tmo/clock/rot, then a deterministic drain). Streams: enum = every schedule (depth-first, bounded number '
-            'of spurious wake-ups/timeouts) of small 2-3 thread scenarios per primitive; templates = handshake templates x guided '
+            'moves run/spur/tmo/steal/clock/rot, then a deterministic drain). Streams: enum = every schedule (depth-first, bounded number '
+            'of spurious wake-ups/timeouts/timeout-steals, optionally after a fixed prefix that blocks the waiters) of small 2-3 thread '
+            'scenarios per primitive; templates = handshake templates x guided '
             'random walks (moves chosen among enabled threads, spurious wake-ups of blocked waiters, clock to deadline-1 / deadline + '
-            'timeout, queue rotations, no-op moves); random = random scripts x random walks; deadline = abstime probes on carry '
+            'timeout or timeout-steal of a woken timed waiter, queue rotations, no-op moves); random = random scripts x random walks; deadline = abstime probes on carry '
             'boundaries. Clock bases put the nanosecond field next to a carry. A scenario case is non-trivial when at least two '
             'threads returned from a library call and some thread was blocked (mutex, condition, semaphore or join) at some move; '
             'a deadline case when the nanosecond field carries or the timeout has a sub-second part; distinct = distinct op text.')
     assumptions = ['initial semaphore value >= 0 (uint in the code)',
-                   'OS primitives behave as coq/Sync/Sched.v says (POSIX semantics incl. spurious wake-ups, ETIMEDOUT only at/after the absolute deadline, EINVAL for tv_nsec outside [0,1e9), glibc order in sem_timedwait); harness/sync_sched.cpp transcribes it',
+                   'OS primitives behave as coq/Sync/Sched.v says (POSIX semantics incl. spurious wake-ups, ETIMEDOUT only at/after the absolute deadline but possibly after a signal was consumed, EINVAL for tv_nsec outside [0,1e9), glibc order in sem_timedwait, glibc owner check on unlock only for recursive mutexes); harness/sync_sched.cpp transcribes it',
                    'sequential consistency at the granularity of primitive calls (flags only accessed under the internal mutex)',
                    'time_t/long arithmetic of the deadline does not overflow: 0 <= ns + (t rem 1000)*10^6 < 2*10^9 is proved; tv_sec + t/1000 is assumed to fit 64 bits']
 
@@ -199,7 +213,14 @@ class C11(Check):
         # (1) exhaustive small scopes: every schedule of Run moves (+ a bounded number of spurious wake-ups / timeouts)
         L = ['lock', 'csenter', 'csleave', 'unlock']
         W = ['monlock', 'monwait', 'monunlock']
+        Wt10 = ['monlock', 'monwaitt=10', 'monunlock']
+        both_blocked = ['m run 0'] * 4 + ['m run 1'] * 4
         scopes = [
+            # directed at the MonSetSignal / TimeoutSteal case of MonLive_step: both waiters are blocked (prefix), then every
+            # schedule of the rest incl. one timeout or timeout-steal; with and without the timed waiter at the queue head
+            ((3, 0, 0, 1, [W, Wt10, ['monset']]), BASES[1], both_blocked + ['m rot 1'], (40, 0, 1)),
+            ((3, 0, 0, 1, [W, Wt10, ['monset']]), BASES[1], both_blocked, (40, 0, 1)),
+            ((3, 0, 0, 1, [['sigwait'], ['sigwaitt=10'], ['sigset']]), BASES[1], ['m run 0'] * 3 + ['m run 1'] * 3, (40, 0, 1)),
             ((2, 0, 0, 1, [['sigwait'], ['sigset']]), None, (40, 1, 0)),
             ((2, 0, 0, 1, [['sigwaitt=10'], ['sigset']]), BASES[1], (40, 0, 1)),
             ((2, 0, 0, 1, [W, ['monset']]), None, (40, 1, 0)),
@@ -219,7 +240,8 @@ class C11(Check):
                 ((3, 0, 1, 1, [['semwait'], ['semwaitt=10'], ['semsignal']]), BASES[1], (60, 1, 1)),
             ]
         maxleaves = 6000 if thorough else 1500
-        heads = [case_head(tpl, base) + ['enum %d %d %d %d' % (d, sp, tm, maxleaves)] for (tpl, base, (d, sp, tm)) in scopes]
+        scopes = [sc if len(sc) == 4 else (sc[0], sc[1], [], sc[2]) for sc in scopes]
+        heads = [case_head(tpl, base) + pre + ['enum %d %d %d %d' % (d, sp, tm, maxleaves)] for (tpl, base, pre, (d, sp, tm)) in scopes]
         cases = self.expand(heads, 'enum')
         out.append(Stream('enum', cases, note='all schedules of %d small scenarios (depth-first, at most %d per scenario)' % (len(scopes), maxleaves)))
         # (2) guided random walks over the templates
